@@ -25,7 +25,7 @@ using L = trompeloeil::list<node>;
 // checks that `l` holds exactly want[0..n) (by id) in order and that the ring is consistent in both directions
 static void check_ring(L &l, const int *want, int n, char const *)
 {
-  trompeloeil::list_elem<node> *head = &static_cast<trompeloeil::list_elem<node> &>(l);
+  trompeloeil::list_elem<node> *head = &(trompeloeil::list_elem<node> &)l;   // private base: C-style cast
   trompeloeil::list_elem<node> *p = head->next;
   int i = 0;
   bool ok = true;
